@@ -313,6 +313,14 @@ def run(ctx):
     for i in range(3 * len(evo.ALL_EDITS) if quick else 40 * len(evo.ALL_EDITS)):
         jobs.append(("evolve", i))
     # every catalogue expression, alone, on a record whose fields have known types (plus seeded compositions)
+    # every rule-violating type construct of C09's catalogue at every position, alone and together with a second, definition-level violation:
+    # validation goes on after the first error, so every later pass sees trees that earlier passes have already rejected
+    from props import C09 as rules
+    RULES = [(rid, ty, pos, None) for rid, _, ty, _ in rules.TYPE_RULES for pos in rules.POSITIONS]
+    RULES += [(rid, ty, pos, d) for k, ((rid, _, ty, _), pos) in enumerate((t, pos) for t in rules.TYPE_RULES for pos in rules.POSITIONS)
+              for j, (_, _, d) in enumerate(rules.DEF_RULES) if "Lib." not in d and "\n---\n" not in d and (not quick or (k * 7 + j) % 53 == 0)]
+    for i in range(len(RULES)):
+        jobs.append(("rules", i))
     n_expr = len(fuzzgen.EXPRS) + (60 if quick else 2000)
     for i in range(n_expr):
         jobs.append(("expr", i))
@@ -352,6 +360,11 @@ def run(ctx):
             files = evo.chain_files([base_pkg, newer], outs)
             root_rel = "v1"
             desc += " previous version + edit %s" % info["name"]
+        elif kind == "rules":
+            rid, ty, pos, second = RULES[i]
+            files = {root_rel + "/_package.yml": files[root_rel + "/_package.yml"] if (root_rel + "/_package.yml") in files and "imports" not in files[root_rel + "/_package.yml"] else "namespace: %s\njson:\n  outputDir: ../out/json\n" % pkg.ns,
+                     root_rel + "/model.yml": rules.HELPERS + rules.embed(pos, ty, "Inj") + (second or "")}
+            desc += " rule construct %s at position %s%s" % (rid, pos, " + a second violating definition" if second else "")
         elif kind == "deep":
             files = {k: v for k, v in files.items() if not k.startswith(root_rel + "/") or k.endswith("_package.yml")}
             files[root_rel + "/model.yml"] = DEEP[i][1]
@@ -409,7 +422,7 @@ def run(ctx):
         ctx.case(key)
         ctx.count("kind." + kind)
         procs = {"validate": cli.run_cli("validate", pkgdir, home)}
-        if i % 2 == 0 or kind in ("nest", "manifest", "tagkind", "mtagkind"):
+        if i % 2 == 0 or kind in ("nest", "manifest", "tagkind", "mtagkind", "rules"):
             procs["generate"] = cli.run_cli("generate", pkgdir, home)
         nviol = len(ctx.violations) + sum(v["n"] for v in ctx.known_hits.values())
         judge(ctx, case_dir, pkgdir, kind, desc, procs)
